@@ -576,7 +576,12 @@ func (c *Check) handlerEffects(kinds map[string]*recKind) {
 					c.Ob("R2", h+": lost-bid filter excludes only the winner and non-open bids", sites[i].Pos(), extra == 0, "additional condition narrows the set of bids marked lost: "+Sym(v))
 				}
 			} else {
-				c.Ob("R2", h+": lost bids come from the enumeration", x.Pos(), false, "OnBidLost argument "+Sym(a[0])+" is not an element of the filtered enumeration")
+				if s := Sym(a[0]); strings.Contains(s, "next(range(make:map[") {
+					// collected in a map of the handler's own first: which bids end up in it is not followed
+					c.Info("R2", h+": lost bids are taken from a map filled by the handler, filter not decided", x.Pos(), "OnBidLost argument "+short(s))
+				} else {
+					c.Ob("R2", h+": lost bids come from the enumeration", x.Pos(), false, "OnBidLost argument "+Sym(a[0])+" is not an element of the filtered enumeration")
+				}
 			}
 		}
 	}
@@ -959,7 +964,12 @@ func (c *Check) hookFiring() func(ssa.CallInstruction) bool {
 	}
 }
 
-func (c *Check) staleAcrossHooks(kinds map[string]*recKind) { c.staleAcrossHooksRule("R5", kinds) }
+func (c *Check) staleAcrossHooks(kinds map[string]*recKind) {
+	c.staleAcrossHooksRule("R5", kinds)
+	// the lease handler writes lease / order / bid from copies read before PaymentCreate; that is only sound because
+	// PaymentCreate fails whenever its settlement fired the close hooks (shared with C03 / C05)
+	c.paymentCreateGuards("R5", c.L.settleCore(), mutatingFuncs(c.L, c.L.pkgFuncs("x/escrow/keeper")))
+}
 
 func (c *Check) staleAcrossHooksRule(rule string, kinds map[string]*recKind) {
 	l := c.L
